@@ -64,6 +64,8 @@ type BEScenario struct {
 	Clients [][]BEOp `json:"clients,omitempty"`
 	// Phases for root-driven modes (janitor / evict / ttl).
 	Root []BEOp `json:"root,omitempty"`
+	// KeepRoot: the root's pre-loading operations stay part of the recorded history (seq / conc modes).
+	KeepRoot bool `json:"keep_root,omitempty"`
 }
 
 type walkDelRec struct {
@@ -431,6 +433,12 @@ func (r *beRun) exec(ci, oi int, op *BEOp) *beRec {
 				zs.Yield("walk.cb")
 				rec.walk = append(rec.walk, walkEnt{key: string(key), val: nilTok(string(key), v), exp: exp.UnixNano(), seq: e.s.NextSeq()})
 
+				// a slow consumer: the first callback takes SleepNs of simulated time (janitor cycles and other
+				// clients run meanwhile)
+				if op.SleepNs > 0 && len(rec.walk) == 1 {
+					zs.Sleep(dur(op.SleepNs))
+				}
+
 				return nil
 			})
 		case "walkDel":
@@ -597,7 +605,10 @@ func runBE(e *env) {
 
 			_, _ = r.bk.dump(&buf)
 			r.setupDump = buf.Bytes()
-			r.recs = nil
+
+			if !r.sc.KeepRoot {
+				r.recs = nil
+			}
 		}
 
 		r.spawnClients()
